@@ -32,6 +32,7 @@ impl Mode {
                 fileck_each_commit: true, // for shape statistics only; errors belong to C05
                 rollback_trace: false,
                 recheck_handed_back: true,
+                ..Default::default()
             },
             Mode::C05 => ExecCfg {
                 verify_each_op: false,
@@ -39,6 +40,7 @@ impl Mode {
                 fileck_each_commit: true,
                 rollback_trace: false,
                 recheck_handed_back: false,
+                ..Default::default()
             },
             Mode::C07 => ExecCfg {
                 verify_each_op: true,
@@ -46,6 +48,7 @@ impl Mode {
                 fileck_each_commit: false,
                 rollback_trace: false,
                 recheck_handed_back: true,
+                ..Default::default()
             },
         }
     }
